@@ -50,6 +50,29 @@ func main() {
 	case "dump":
 		dumpCmd(os.Args[2:])
 		return
+	case "at":
+		// at <pkg:func> <callee regexp>: print path literals before each matching call
+		c := newCtx("dev", "quick")
+		c.Load("./...")
+		fn := c.Fn(os.Args[2])
+		f := c.Facts(fn)
+		for _, s := range f.Calls(mustRe(os.Args[3])) {
+			fmt.Printf("== before %s @%s\n", calleeName(s.Common()), c.Position(s.Pos()))
+			for i, st := range f.At(s) {
+				fmt.Printf("  -- state %d\n", i)
+				for _, l := range st.Lits() {
+					if !strings.HasPrefix(l, "call:") {
+						fmt.Println("     ", l)
+					}
+				}
+			}
+		}
+		return
+	case "conv":
+		c := newCtx("dev", "quick")
+		c.Load("./...")
+		devConversions(c, os.Args[2])
+		return
 	case "list":
 		var ids []string
 		for id := range registry {
